@@ -75,10 +75,18 @@ func c27CheckAll(a *mta.Accumulator, items [][]byte, phase string) string {
 	if a.Len() != int64(len(items)) {
 		return fmt.Sprintf("%s: Len()=%d want %d", phase, a.Len(), len(items))
 	}
+	// witnesses are values handed to other parties: all of them are kept (with a private deep copy) while further
+	// witnesses are requested from the same accumulator, and must read and verify the same afterwards
+	held := make([][]mta.Witness, len(items))
+	copies := make([][]mta.Witness, len(items))
 	for i, d := range items {
 		w, err := a.WitnessFor(int64(i))
 		if err != nil {
 			return fmt.Sprintf("%s: n=%d WitnessFor(%d) error %v", phase, len(items), i, err)
+		}
+		held[i] = w
+		for _, e := range w {
+			copies[i] = append(copies[i], mta.Witness{HashValue: append([]byte{}, e.HashValue...), Direction: e.Direction})
 		}
 		h := crypto.SHA3Sum256(d)
 		if err := a.Verify(w, h); err != nil {
@@ -111,6 +119,19 @@ func c27CheckAll(a *mta.Accumulator, items [][]byte, phase string) string {
 	}
 	if _, err := a.WitnessFor(int64(len(items))); err == nil {
 		return fmt.Sprintf("%s: n=%d WitnessFor(n) succeeded", phase, len(items))
+	}
+	for i, d := range items {
+		if len(held[i]) != len(copies[i]) {
+			return fmt.Sprintf("%s: n=%d the witness obtained for %d changed its length after later WitnessFor calls", phase, len(items), i)
+		}
+		for j := range held[i] {
+			if held[i][j].Direction != copies[i][j].Direction || string(held[i][j].HashValue) != string(copies[i][j].HashValue) {
+				return fmt.Sprintf("%s: n=%d element %d of the witness obtained for %d changed after later WitnessFor calls (%x -> %x)", phase, len(items), j, i, copies[i][j].HashValue, held[i][j].HashValue)
+			}
+		}
+		if err := a.Verify(held[i], crypto.SHA3Sum256(d)); err != nil {
+			return fmt.Sprintf("%s: n=%d the witness obtained for %d no longer verifies after later WitnessFor calls: %v", phase, len(items), i, err)
+		}
 	}
 	return ""
 }
